@@ -4,8 +4,11 @@
 R=${VP_RUN_REPO:-$1}
 [ -d "$R" ] || { echo "need a repo snapshot"; exit 2; }
 export VERIF_REPO=$R
-ok=0; bad=0
+ok=0; bad=0; i=0
 for d in seeded/*/; do
+  i=$((i+1))
+  # SEED_SHARD / SEED_SHARDS: this run takes every SEED_SHARDS-th seed (several runs, each on its own snapshot, in parallel)
+  [ -n "$SEED_SHARDS" ] && [ $((i % SEED_SHARDS)) -ne ${SEED_SHARD:-0} ] && continue
   id=$(basename $d)
   prop=$(python3 -c "import json;m=json.load(open('$d/meta.json'));print((m.get('detected_by') or [m['breaks_property']])[0])")
   (cd $R && git checkout -q -- . && git clean -fdq && git apply /verif/$d/patch.diff) || { echo "$id APPLY-FAIL"; bad=$((bad+1)); continue; }
